@@ -31,6 +31,7 @@ def both(ctx):
 def c17(ctx):
     m_volatile.run(ctx)
     m_xen.xgrant(ctx)
+    m_unmap.xwindows(ctx)
 
 
 def c18(ctx):
